@@ -88,12 +88,39 @@ class SimThread:
             return True
         return self.state == "waiting" and self.deadline is not None and self.deadline <= CLOCK.now + 1e-12
 
+    # -- preemption of this thread between the lines of selected functions (ActorSim.thread_line_preempt) ------------------------------
+    def _trace_global(self, frame, event, arg):
+        if event == "call" and self.sim.thread_line_preempt(frame.f_code):
+            return self._trace_local
+        return None
+
+    def _trace_local(self, frame, event, arg):
+        if event == "line":
+            self.yield_now()
+        return self._trace_local
+
+    def yield_now(self):
+        """hand the baton back in the middle of a step: the thread stays runnable at this instant and is first in the canonical order, so
+        continuing it is the default and running anything else first (a message, a due wake-up, a time advance) costs one deviation"""
+        self.state = "waiting"
+        self.deadline = CLOCK.now
+        self.sim.yielded = self
+        self.sim.current_thread = None
+        self.sim.back.release()
+        self.go.acquire()
+        if self.abort:
+            raise SimAbort()
+        self.sim.current_thread = self
+        self.state = "running"
+
     def _body(self):
         self.go.acquire()
         try:
             if self.abort:
                 raise SimAbort()
             self.sim.current_thread = self
+            if self.sim.thread_line_preempt is not None:
+                sys.settrace(self._trace_global)
             try:
                 r = self.fn(*self.args, **self.kwargs)
                 self.future._finish(result=r)
@@ -234,6 +261,9 @@ class ActorSim:
         # optional predicate on code objects: inside matching functions every *line* of an actor handler is a point at which an
         # executor thread of the same actor that is runnable at this instant may be stepped (one deviation each)
         self.line_preempt = None
+        # optional predicate on code objects: inside matching functions an executor thread can be preempted before every line
+        self.thread_line_preempt = None
+        self.yielded = None
         self.duplicate_child_exited = True
         self.unavailable = set()  # processes (hosts) on which no actor can be created any more
         self.ever_registered = False
@@ -477,10 +507,15 @@ class ActorSim:
         for ck, q in self.channels.items():
             if q:
                 heads.append((q[0][0], ck))
+        y = self.yielded
+        if y is not None and y.state == "waiting" and y.runnable():
+            out.append(("thread", y))  # the thread that has just been preempted inside a step goes on by default
+        else:
+            y = None
         for _seq, ck in sorted(heads):
             out.append(("msg", ck))
         for t in self.threads:
-            if t.state in ("new", "waiting") and t.runnable():
+            if t is not y and t.state in ("new", "waiting") and t.runnable():
                 out.append(("thread", t))
         if self.untimed:
             # explicit-state mode: a timer may fire at any moment, time itself is not part of the state
@@ -527,6 +562,7 @@ class ActorSim:
             k = self.ch.choose(len(order), "sched")
             pick = order[k]
         self.steps += 1
+        self.yielded = None
         kind = pick[0]
         if kind == "msg":
             ck = pick[1]
